@@ -35,6 +35,8 @@ def _unk_callable(ch):
 PROTS = ['braces', 'braces-all', 'braces-almost-all', 'braces-after-macro', 'none', _prot_callable]
 UNKS = ['keep', 'replace', 'ignore', 'fail', 'unihex', _unk_callable]
 CONFIGS = [(p, u, n) for p in PROTS for u in UNKS for n in (False, True)]
+# two-rule lists: every protection x {keep, fail, unihex} x non_ascii_only (rule order does not interact with the other policies' texts)
+CONFIGS_PAIR = [c for c in CONFIGS if c[1] in ('keep', 'fail', 'unihex')]
 
 
 def _c1(s, pos):
@@ -64,6 +66,8 @@ def rule_menu():
     r3 = [(re.compile(r'ab'), 'X')]
     r4 = [(re.compile(r'a(b)'), r'\1\\x\1')]
     r5 = [(re.compile('\u00e9|%'), lambda m: '\\E' + str(len(m.group(0))))]
+    d3 = {ord('a'): 'Z', ord('b'): '\\V', 0xe9: 'EE', 0x20ac: '\\EUR'}   # overlaps d1, d2 and the defaults: the FIRST rule of a list wins
+    r7 = [(re.compile(r'[ab]+'), r'<\g<0>>'), (re.compile('\u00e9'), r'\g<0>!')]    # group-less patterns whose template quotes the match itself
     defaults = le.get_builtin_uni2latex_dict()
     r6 = [(re.compile(r'(?<=a)b'), 'Q'), (re.compile(r'^%'), 'P'), (re.compile(r'\bb'), 'W')]   # depend on the text to the LEFT
     return [
@@ -77,6 +81,8 @@ def rule_menu():
         ('callable-2', lambda own: le.UnicodeToLatexConversionRule(le.RULE_CALLABLE, _c2, replacement_latex_protection=own), _c2),
         ('callable-u2lobj', lambda own: le.UnicodeToLatexConversionRule(le.RULE_CALLABLE, _c3, replacement_latex_protection=own),
          lambda s, pos: _c3(s, pos, True)),
+        ('dict-overlap', lambda own: le.UnicodeToLatexConversionRule(le.RULE_DICT, d3, replacement_latex_protection=own), ref.dict_matcher(d3)),
+        ('regex-whole-match', lambda own: le.UnicodeToLatexConversionRule(le.RULE_REGEX, r7, replacement_latex_protection=own), ref.regex_matcher(r7)),
         ('defaults', None, ref.dict_matcher(defaults)),
     ]
 
@@ -155,8 +161,11 @@ def make_encoder(rulespec, cfg, menu):
     return enc, refrules
 
 
+NM = 12    # entries of rule_menu(); the last one is the built-in 'defaults' list (no own protection)
+
+
 def rule_lists_A():
-    nm = 10
+    nm = NM
     out = [()]
     for i in range(nm):
         for own in OWN3:
@@ -169,7 +178,7 @@ def rule_lists_A():
 
 
 def rule_lists_B(maxlen):
-    variants = [(i, own) for i in range(10) for own in OWN3 if not (i == 9 and own is not None)]
+    variants = [(i, own) for i in range(NM) for own in OWN3 if not (i == NM - 1 and own is not None)]
     out = []
     for k in range(0, maxlen + 1):
         for combo in itertools.product(variants, repeat=k):
@@ -188,8 +197,8 @@ def plan(tier):
         shards=shards,
         bounds=dict(b, symbols=[repr(x) for x in SYMS], rule_kinds=[m[0] for m in rule_menu()], configs=len(CONFIGS),
                     lists_A=len(la), lists_B=len(lb)),
-        rule=('(A) every ordered list of <= 2 rules from a 10-entry menu (2 dicts, 4 regex rules incl. group expansion, callable replacement and left-context patterns, '
-              '3 callables (consuming 1 / 2 characters, one asking for the encoder object), the built-in defaults; first rule with own protection in {None, none, braces-all}) x all 72 '
+        rule=('(A) every ordered list of <= 2 rules from a 12-entry menu (3 dicts with overlapping keys, 5 regex rules incl. group expansion, whole-match templates on group-less patterns, callable replacement and left-context patterns, '
+              '3 callables (consuming 1 / 2 characters, one asking for the encoder object), the built-in defaults; first rule with own protection in {None, none, braces-all}) x all 72 (two-rule lists in the quick tier: 36) '
               'configurations (6 protections incl. callable x 6 unknown-character policies incl. callable x non_ascii_only) x all strings of length '
               '<= NA over 12 symbols (ASCII, %%, backslash, precomposed and combining accents, symbols with rules, control, unassigned, astral); '
               '(B) every ordered list of <= 3 rule variants x default configuration x strings of length <= NB; every code point of both built-in '
@@ -207,7 +216,7 @@ def run_shard(shard, tier, acc):
     if sub == 'A':
         spec = rule_lists_A()[i]
         strs = list(strings(b['NA']))
-        for cfg in CONFIGS:
+        for cfg in (CONFIGS if len(spec) <= 1 or tier != 'quick' else CONFIGS_PAIR):
             enc, refrules = make_encoder(spec, cfg, menu)
             for s in strs:
                 compare(enc, refrules, cfg, s, acc, dict(rules=[[r, o] for r, o in spec], cfg=cfgname(cfg), s=s), 'A')
